@@ -801,12 +801,30 @@ class IrGenerator:
                             return False
                     return True
 
-                if check_value(lhs_map) and check_branches(rhs_map):
+                def check_distinct(map: IdMap):
+                    # the choices of a vhdl case statement must be distinct,
+                    # otherwise use the if-else chain (first matching branch wins)
+                    values = list(map.values())
+                    for nr, first in enumerate(values):
+                        for second in values[nr + 1 :]:
+                            if (first == second) is True:
+                                return False
+                    return True
+
+                if (
+                    check_value(lhs_map)
+                    and check_branches(rhs_map)
+                    and check_distinct(rhs_map)
+                ):
                     return gen_case_when(
                         lhs_expr[0], rhs_expr, bodies, inp._default, open_blocks
                     )
 
-                if check_value(rhs_map) and check_branches(lhs_map):
+                if (
+                    check_value(rhs_map)
+                    and check_branches(lhs_map)
+                    and check_distinct(lhs_map)
+                ):
                     return gen_case_when(
                         rhs_expr[0], lhs_expr, bodies, inp._default, open_blocks
                     )
